@@ -39,3 +39,13 @@
 ;; GOAL shl_by_4_is_times_16_w8
 (declare-fun a () (_ BitVec 8))
 (assert (not (= (bvshl a #x04) (bvmul a #x10))))
+
+;; GOAL bit_of_zero_w32
+(declare-fun j () (_ BitVec 32))
+(assert (not (= (bvand (bvlshr #x00000000 j) #x00000001) #x00000000)))
+
+;; GOAL bit_of_or_pow2_w32
+(declare-fun a () (_ BitVec 32)) (declare-fun k () (_ BitVec 32)) (declare-fun j () (_ BitVec 32))
+(assert (bvult k #x00000020)) (assert (bvult j #x00000020))
+(assert (not (= (= (bvand (bvlshr (bvor a (bvshl #x00000001 k)) j) #x00000001) #x00000001)
+                (or (= (bvand (bvlshr a j) #x00000001) #x00000001) (= j k)))))
